@@ -617,6 +617,8 @@ class RustParser:
                 inner = [b for b in body[2:-1] if b != ","]
                 if inner == ["C"]:
                     repr_c = True
+                elif "C" in inner:
+                    self.err("repr(%s): only plain repr(C) is modelled" % " ".join(inner))
                 else:
                     others.append("repr(%s)" % ",".join(inner))
             elif body and body[0] == "cfg_attr":
@@ -775,6 +777,8 @@ class RustParser:
             elif t == "struct" or t == "union":
                 self.eat()
                 name = self.eat()
+                if enabled and any(o.startswith("cfg_attr") and "repr" in o for o in others):
+                    self.err("struct %s: conditional repr attribute unsupported" % name)
                 if not enabled:
                     self.skip_item_rest()
                 elif repr_c:
@@ -1054,7 +1058,7 @@ def emit_eval_file(module, pairs, dumps):
 def emit_thm_file(module, pairs):
     out = ["(* GENERATED: reflection theorems re-checked against the regenerated declaration lists *)",
            "From Coq Require Import NArith List String.",
-           "From LibaV Require Import C20.AbiDefs C20.AbiProofs.", "Require Import %s." % module, ""]
+           "From LibaV Require Import C20.AbiDefs C20.AbiSpec C20.AbiProofs.", "Require Import %s." % module, ""]
     for tag, r, c in pairs:
         out.append("Theorem liba_abi_%s : abi_compatible %s %s = true.\nProof. vm_compute. reflexivity. Qed." % (tag, r, c))
         out.append("Print Assumptions liba_abi_%s." % tag)
@@ -1299,17 +1303,32 @@ def py_mismatches(rd, cd, rust_lines, c_lines):
     """The property itself, evaluated on what the COMPILERS report for the current sources (layouts)
     and on the parsed declarations (signatures).  Returns [(key, what, detail-dict)]."""
     out = []
-    rl, cl = parse_layout_lines(rust_lines), parse_layout_lines(c_lines)
+    have_layouts = rust_lines is not None and c_lines is not None
+    rl, cl = parse_layout_lines(rust_lines or []), parse_layout_lines(c_lines or [])
     cstructs = {n: fs for (n, u, fs) in cd.structs}
     for (n, u, fs) in rd.structs:
         cn = "a_" + n
-        if n not in rl:
-            out.append(("struct/%s/rustc" % n, "rustc reported no layout for %s" % n, {}))
-            continue
-        if cn not in cstructs or cn not in cl:
+        if cn not in cstructs:
             if n not in RUST_ONLY:
                 out.append(("struct/%s/no-mirror" % n, "repr(C) struct %s has no C record %s and is not a known "
                             "Rust-only type" % (n, cn), {"struct": n}))
+            continue
+        if not have_layouts:
+            # a compiler probe failed: only names, counts and types can be compared
+            cfs = cstructs[cn]
+            if len(fs) != len(cfs):
+                out.append(("struct/%s/n" % n, "%s: %d fields in Rust, %d in C" % (n, len(fs), len(cfs)),
+                            {"struct": n, "rust": len(fs), "c": len(cfs)}))
+            for i, ((fn, ft), (cfn, cft)) in enumerate(zip(fs, cfs)):
+                if not (fn == cfn or fn + "_" == cfn):
+                    out.append(("struct/%s/field/%d/name" % (n, i), "%s field %d is `%s` in Rust but `%s` in C" % (n, i, fn, cfn),
+                                {"struct": n, "index": i, "rust": fn, "c": cfn}))
+                if not py_compat(ft, cft):
+                    out.append(("struct/%s/field/%d/type" % (n, i), "%s.%s: type %s in Rust vs %s in C" % (n, fn, ty_str(ft), ty_str(cft)),
+                                {"struct": n, "index": i, "field": fn, "rust": ty_str(ft), "c": ty_str(cft)}))
+            continue
+        if n not in rl or cn not in cl:
+            out.append(("struct/%s/no-layout" % n, "a compiler reported no layout for %s / %s" % (n, cn), {}))
             continue
         a, b = rl[n], cl[cn]
         for what in ("kind", "size", "align", "n"):
@@ -1469,10 +1488,13 @@ def synth_sources(rng, n):
         for (fn, rt, ct) in fields:
             rs.append("    %s%s: %s," % (rng.choice(["pub ", "", "pub "]), fn, rt))
         rs.append("}")
-        hs.append("struct a_s%d {" % k)
-        for (fn, rt, ct) in cfields:
-            hs.append("    %s;" % (ct % fn))
-        hs.append("};")
+        if note is None and rng.random() < 0.04:
+            note = "s%d: no C record" % k          # a repr(C) struct that mirrors nothing
+        else:
+            hs.append("struct a_s%d {" % k)
+            for (fn, rt, ct) in cfields:
+                hs.append("    %s;" % (ct % fn))
+            hs.append("};")
         if note:
             notes.append(note)
         else:
@@ -1507,6 +1529,21 @@ def synth_sources(rng, n):
                                             "" if ret is None else " -> " + ret[0]))
         hs.append("extern %s a_fn%d(%s);" % ("void" if cret is None else cret[1],
                                              k, ", ".join((p[1] if "%s" not in p[1] else p[1] % "") for p in cps) or "void"))
+    for k in range(max(1, n // 10)):
+        a, b = rng.choice(SYN_SCALARS[:14])
+        r = rng.random()
+        rs.append("    static a_v%d: %s;" % (k, a))
+        if r < 0.15:
+            notes.append("a_v%d: missing" % k)
+        elif r < 0.35:
+            a2, b2 = rng.choice(SYN_SCALARS[:14])
+            hs.append("extern %s const a_v%d;" % (b2, k))
+            notes.append("a_v%d: retyped" % k)
+        else:
+            hs.append("extern %s const a_v%d;" % (b, k))
+        if rng.random() < 0.3:
+            rs.append("    fn a_missing%d(x: f64) -> f64;" % k)
+            notes.append("a_missing%d: not in the header" % k)
     rs.append("}")
     hs.append("#endif")
     return "\n".join(rs) + "\n", "\n".join(hs) + "\n", notes
